@@ -47,14 +47,14 @@ impl NameAddr {
             map(
                 alt((
                     tuple((
-                        opt(alt((parse_quoted, take_while1(display)))),
+                        opt(alt((parse_quoted, map(take_while1(display), trim_lws)))),
                         take_while(whitespace),
                         delimited(tag("<"), ctx.parse_uri(), tag(">")),
                     )),
                     map(ctx.parse_uri(), |uri| (None, "", uri)),
                 )),
                 move |(name, _, uri)| Self {
-                    name: name.map(|name| BytesStr::from_parse(ctx.src, name.trim())),
+                    name: name.map(|name| BytesStr::from_parse(ctx.src, name)),
                     uri,
                 },
             )(i)
@@ -66,19 +66,25 @@ impl NameAddr {
             map(
                 alt((
                     tuple((
-                        opt(alt((parse_quoted, take_while1(display)))),
+                        opt(alt((parse_quoted, map(take_while1(display), trim_lws)))),
                         take_while(whitespace),
                         delimited(tag("<"), ctx.parse_uri(), tag(">")),
                     )),
                     map(ctx.parse_uri_no_params(), |uri| (None, "", uri)),
                 )),
                 move |(name, _, uri)| Self {
-                    name: name.map(|name| BytesStr::from_parse(ctx.src, name.trim())),
+                    name: name.map(|name| BytesStr::from_parse(ctx.src, name)),
                     uri,
                 },
             )(i)
         }
     }
+}
+
+/// Strip the linear white space between an unquoted display name and the `<`, the content
+/// of a quoted display name is taken as it is written
+fn trim_lws(name: &str) -> &str {
+    name.trim_matches(|c| c == ' ' || c == '\t')
 }
 
 impl Print for NameAddr {
